@@ -1,6 +1,10 @@
 package sym
 
-import "math/bits"
+import (
+	"fmt"
+	"math/bits"
+	"os"
+)
 
 // Byte-domain fast path ("front solver").
 //
@@ -42,13 +46,16 @@ func (b *bitset) count() int {
 
 var fullSet = bitset{^uint64(0), ^uint64(0), ^uint64(0), ^uint64(0)}
 
-// support of a term: the variables it depends on (at most supMax listed).
-const supMax = 4
+// support of a term: the variables it depends on (sorted by id; at most
+// supMax listed, beyond that "many").
+const supMax = 512
 
 type support struct {
 	vars []*Term
 	many bool
 }
+
+var emptySupport = &support{}
 
 func (tt *TermTable) supportOf(t *Term) *support {
 	if t.sup != nil {
@@ -57,40 +64,84 @@ func (tt *TermTable) supportOf(t *Term) *support {
 	var s *support
 	switch t.op {
 	case OpConst:
-		s = &support{}
+		s = emptySupport
 	case OpVar:
 		s = &support{vars: []*Term{t}}
 	default:
-		s = &support{}
-		for i := 0; i < int(t.n) && !s.many; i++ {
+		// union of the children's supports (children first, iteratively for
+		// deep terms via recursion on args; depth is bounded by term depth)
+		var acc *support
+		for i := 0; i < int(t.n); i++ {
 			cs := tt.supportOf(t.a[i])
 			if cs.many {
-				s.many = true
+				acc = &support{many: true}
 				break
 			}
-			for _, v := range cs.vars {
-				found := false
-				for _, w := range s.vars {
-					if w == v {
-						found = true
-						break
-					}
-				}
-				if !found {
-					if len(s.vars) >= supMax {
-						s.many = true
-						break
-					}
-					s.vars = append(s.vars, v)
-				}
+			if len(cs.vars) == 0 {
+				continue
+			}
+			if acc == nil {
+				acc = cs
+				continue
+			}
+			acc = unionSupport(acc, cs)
+			if acc.many {
+				break
 			}
 		}
-		if s.many {
-			s.vars = nil
+		if acc == nil {
+			acc = emptySupport
 		}
+		s = acc
 	}
 	t.sup = s
 	return s
+}
+
+func unionSupport(a, b *support) *support {
+	// fast path: one contains the other (common for chains)
+	if len(b.vars) == 1 {
+		for _, v := range a.vars {
+			if v == b.vars[0] {
+				return a
+			}
+		}
+	}
+	if len(a.vars) == 1 {
+		for _, v := range b.vars {
+			if v == a.vars[0] {
+				return b
+			}
+		}
+	}
+	out := make([]*Term, 0, len(a.vars)+len(b.vars))
+	i, j := 0, 0
+	for i < len(a.vars) && j < len(b.vars) {
+		switch {
+		case a.vars[i] == b.vars[j]:
+			out = append(out, a.vars[i])
+			i++
+			j++
+		case a.vars[i].id < b.vars[j].id:
+			out = append(out, a.vars[i])
+			i++
+		default:
+			out = append(out, b.vars[j])
+			j++
+		}
+	}
+	out = append(out, a.vars[i:]...)
+	out = append(out, b.vars[j:]...)
+	if len(out) > supMax {
+		return &support{many: true}
+	}
+	if len(out) == len(a.vars) {
+		return a
+	}
+	if len(out) == len(b.vars) {
+		return b
+	}
+	return &support{vars: out}
 }
 
 // single8 returns the variable when t depends on exactly one 8-bit variable.
@@ -171,6 +222,10 @@ func (m *Machine) domNote(lit *Term, depth int) {
 		d.trail = append(d.trail, domUndo{depth: depth, ent: true})
 		d.allEnt++
 		return
+	}
+	if m.Opts.Trace && os.Getenv("GOSYM_TERMS") != "" && m.entPrinted < 6 {
+		m.entPrinted++
+		fmt.Printf("ENTANGLING LITERAL (%d vars): %s\n", len(s.vars), lit.String())
 	}
 	for _, v := range s.vars {
 		d.ent[v]++
@@ -253,4 +308,291 @@ func (m *Machine) patchModel(ex *explorer, lit *Term) {
 	}
 	nm[int(v.val)] = nb.first()
 	ex.model = nm
+}
+
+// ---- interval layer ----
+//
+// For conditions over several variables, an unsigned interval evaluation of
+// the term (variable ranges taken from the byte domains) can show that only
+// one outcome is possible.  This is an over-approximation, so it is only used
+// to conclude that an outcome is implied (never that both are feasible).
+
+type ival struct {
+	lo, hi uint64
+}
+
+type ivalEval struct {
+	m    *Machine
+	memo map[int]ival
+	bmem map[int]int8 // 1 true, 0 false, -1 unknown
+}
+
+func (b *bitset) minmax() (uint64, uint64, bool) {
+	if b.empty() {
+		return 0, 0, false
+	}
+	lo := b.first()
+	var hi uint64
+	for i := 3; i >= 0; i-- {
+		if b[i] != 0 {
+			hi = uint64(i*64 + 63 - bits.LeadingZeros64(b[i]))
+			break
+		}
+	}
+	return lo, hi, true
+}
+
+func (e *ivalEval) iv(t *Term) ival {
+	if t.op == OpConst {
+		return ival{t.val, t.val}
+	}
+	if r, ok := e.memo[t.id]; ok {
+		return r
+	}
+	w := t.sort
+	full := ival{0, mask(w)}
+	r := full
+	if v := e.m.tt.single8(t); v != nil && t.op != OpVar && w != SortBool {
+		// exact range by enumeration over the variable's domain
+		tab := e.m.tt.valueTable(t, v)
+		d := e.m.dom.dom(v)
+		first := true
+		for i := 0; i < 256; i++ {
+			if !d.has(uint64(i)) {
+				continue
+			}
+			x := tab[i]
+			if first {
+				r = ival{x, x}
+				first = false
+				continue
+			}
+			r.lo, r.hi = min(r.lo, x), max(r.hi, x)
+		}
+		e.memo[t.id] = r
+		return r
+	}
+	switch t.op {
+	case OpVar:
+		if w == 8 {
+			if lo, hi, ok := e.m.dom.dom(t).minmax(); ok {
+				r = ival{lo, hi}
+			}
+		}
+	case OpZExt:
+		r = e.iv(t.a[0])
+	case OpExtract:
+		lo := t.val & 0xff
+		a := e.iv(t.a[0])
+		if lo == 0 && a.hi <= mask(w) {
+			r = a
+		}
+	case OpBAnd:
+		a, b := e.iv(t.a[0]), e.iv(t.a[1])
+		r = ival{0, min(a.hi, b.hi)}
+	case OpBOr, OpBXor:
+		a, b := e.iv(t.a[0]), e.iv(t.a[1])
+		top := bits.Len64(a.hi | b.hi)
+		hi := mask(w)
+		if top < 64 {
+			hi = min(hi, (uint64(1)<<uint(top))-1)
+		}
+		lo := uint64(0)
+		if t.op == OpBOr {
+			lo = max(a.lo, b.lo)
+		}
+		r = ival{lo, hi}
+	case OpShl:
+		a, k := e.iv(t.a[0]), t.a[1]
+		if k.op == OpConst && k.val < 64 && bits.Len64(a.hi)+int(k.val) <= int(w) {
+			r = ival{a.lo << k.val, a.hi << k.val}
+		}
+	case OpLShr:
+		a, k := e.iv(t.a[0]), t.a[1]
+		if k.op == OpConst && k.val < 64 {
+			r = ival{a.lo >> k.val, a.hi >> k.val}
+		}
+	case OpAdd:
+		a, b := e.iv(t.a[0]), e.iv(t.a[1])
+		if s := a.hi + b.hi; s >= a.hi && s <= mask(w) {
+			r = ival{a.lo + b.lo, s}
+		} else if w < 64 || true {
+			// adding a "negative" constant: x + (2^w - c) = x - c when x >= c
+			if t.a[1].op == OpConst {
+				c := (-t.a[1].val) & mask(w)
+				if c <= a.lo {
+					r = ival{a.lo - c, a.hi - c}
+				}
+			}
+		}
+	case OpSub:
+		a, b := e.iv(t.a[0]), e.iv(t.a[1])
+		if a.lo >= b.hi {
+			r = ival{a.lo - b.hi, a.hi - b.lo}
+		}
+	case OpMul:
+		a, b := e.iv(t.a[0]), e.iv(t.a[1])
+		hi, lo := bits.Mul64(a.hi, b.hi)
+		if hi == 0 && lo <= mask(w) {
+			r = ival{a.lo * b.lo, lo}
+		}
+	case OpUDiv:
+		a, b := e.iv(t.a[0]), e.iv(t.a[1])
+		if b.lo > 0 {
+			r = ival{a.lo / b.hi, a.hi / b.lo}
+		}
+	case OpURem:
+		a, b := e.iv(t.a[0]), e.iv(t.a[1])
+		if b.lo > 0 {
+			r = ival{0, min(a.hi, b.hi-1)}
+		}
+	case OpIte:
+		switch e.bv(t.a[0]) {
+		case 1:
+			r = e.iv(t.a[1])
+		case 0:
+			r = e.iv(t.a[2])
+		default:
+			a, b := e.iv(t.a[1]), e.iv(t.a[2])
+			r = ival{min(a.lo, b.lo), max(a.hi, b.hi)}
+		}
+	case OpSExt:
+		a := e.iv(t.a[0])
+		if a.hi < uint64(1)<<(uint(t.a[0].sort)-1) {
+			r = a
+		}
+	}
+	e.memo[t.id] = r
+	return r
+}
+
+// bv evaluates a Boolean term to 1, 0 or -1 (unknown).
+func (e *ivalEval) bv(t *Term) int8 {
+	if t.op == OpConst {
+		return int8(t.val)
+	}
+	if r, ok := e.bmem[t.id]; ok {
+		return r
+	}
+	var r int8 = -1
+	if v := e.m.tt.single8(t); v != nil {
+		// exact under the variable's domain
+		ts := e.m.tt.truthSet(t, v)
+		d := e.m.dom.dom(v)
+		T := d.and(ts)
+		F := d.andNot(ts)
+		switch {
+		case T.empty() && !F.empty():
+			r = 0
+		case F.empty() && !T.empty():
+			r = 1
+		}
+		e.bmem[t.id] = r
+		return r
+	}
+	switch t.op {
+	case OpNot:
+		if x := e.bv(t.a[0]); x >= 0 {
+			r = 1 - x
+		}
+	case OpAnd:
+		x, y := e.bv(t.a[0]), e.bv(t.a[1])
+		switch {
+		case x == 0 || y == 0:
+			r = 0
+		case x == 1 && y == 1:
+			r = 1
+		}
+	case OpOr:
+		x, y := e.bv(t.a[0]), e.bv(t.a[1])
+		switch {
+		case x == 1 || y == 1:
+			r = 1
+		case x == 0 && y == 0:
+			r = 0
+		}
+	case OpIte:
+		switch e.bv(t.a[0]) {
+		case 1:
+			r = e.bv(t.a[1])
+		case 0:
+			r = e.bv(t.a[2])
+		default:
+			x, y := e.bv(t.a[1]), e.bv(t.a[2])
+			if x == y {
+				r = x
+			}
+		}
+	case OpEq:
+		if t.a[0].sort == SortBool {
+			x, y := e.bv(t.a[0]), e.bv(t.a[1])
+			if x >= 0 && y >= 0 {
+				if x == y {
+					r = 1
+				} else {
+					r = 0
+				}
+			}
+		} else if t.a[0].sort != SortInt {
+			a, b := e.iv(t.a[0]), e.iv(t.a[1])
+			if a.hi < b.lo || b.hi < a.lo {
+				r = 0
+			} else if a.lo == a.hi && b.lo == b.hi && a.lo == b.lo {
+				r = 1
+			}
+		}
+	case OpULt, OpULe, OpSLt, OpSLe:
+		a, b := e.iv(t.a[0]), e.iv(t.a[1])
+		w := t.a[0].sort
+		if t.op == OpSLt || t.op == OpSLe {
+			half := uint64(1) << (uint(w) - 1)
+			if a.hi >= half || b.hi >= half {
+				break // possibly negative: no conclusion
+			}
+		}
+		strict := t.op == OpULt || t.op == OpSLt
+		if strict {
+			if a.hi < b.lo {
+				r = 1
+			} else if a.lo >= b.hi {
+				r = 0
+			}
+		} else {
+			if a.hi <= b.lo {
+				r = 1
+			} else if a.lo > b.hi {
+				r = 0
+			}
+		}
+	case OpVar:
+		// Boolean variables do not exist (bools are drawn as bytes)
+	}
+	e.bmem[t.id] = r
+	return r
+}
+
+// ivalDecide returns 1/0 if the interval layer shows c is always true/false
+// under the current byte domains, -1 otherwise.
+func (m *Machine) ivalDecide(c *Term) int8 {
+	if m.Opts.NoDomain {
+		return -1
+	}
+	e := &ivalEval{m: m, memo: map[int]ival{}, bmem: map[int]int8{}}
+	return e.bv(c)
+}
+
+// valueTable: the value of single-variable term t for each value of v.
+func (tt *TermTable) valueTable(t, v *Term) *[256]uint64 {
+	if t.tab != nil {
+		return t.tab
+	}
+	var tab [256]uint64
+	idx := int(v.val)
+	mod := Model{}
+	for i := 0; i < 256; i++ {
+		mod[idx] = uint64(i)
+		tab[i] = Eval(t, mod)
+	}
+	t.tab = &tab
+	return t.tab
 }
